@@ -103,6 +103,7 @@ struct World {
     // C03 accounting, per direction (sender endpoint) and flow id
     credit: [HashMap<u32, i64>; 2],
     open_ports: HashMap<u64, (usize, u64)>, // port -> (opener endpoint, req)
+    connects_sent: HashMap<(usize, u64), usize>, // (opener endpoint, port) -> Connect frames seen on the wire
     port_handle: HashMap<u64, [Option<usize>; 2]>,
     finished_cleanly: HashMap<(usize, usize), bool>,
     aborted: HashMap<(usize, usize), bool>,
@@ -240,6 +241,7 @@ impl World {
             fails: vec![],
             credit: [HashMap::new(), HashMap::new()],
             open_ports: HashMap::new(),
+            connects_sent: HashMap::new(),
             port_handle: HashMap::new(),
             finished_cleanly: HashMap::new(),
             aborted: HashMap::new(),
@@ -412,6 +414,28 @@ impl World {
         let (res, evs) = out.split_once(" | ").unwrap_or((out, ""));
         let res_t: Vec<&str> = res.split(' ').collect();
         let clean = !self.injected;
+        // C07: a requester makes at most `max_flow_id_retries` attempts per stream request — one Connect
+        // each, all carrying the request's port (the harness gives every request its own port); the events
+        // of a step with several deliveries / calls are looked at once
+        if !self.skip_events {
+            let this_port: Option<u64> = if t[0] == "open" { t.get(3).and_then(|x| x.parse().ok()) } else { None };
+            for ev in evs.split("; ") {
+                let Some(h) = ev.strip_prefix("wire ") else { continue };
+                let Some((0, id, p)) = parse_frame(h) else { continue };
+                if p.len() < 6 { continue; }
+                let port = u64::from(u16::from_be_bytes([p[4], p[5]]));
+                let mine = self.open_ports.get(&port).is_some_and(|x| x.0 == e) || this_port == Some(port);
+                if !mine { continue; }
+                let c = self.connects_sent.entry((e, port)).or_insert(0);
+                *c += 1;
+                if *c > self.opts[e].max_retries {
+                    let msg = format!("endpoint {} has put {} Connect frames on the wire for its stream request to port {port} (the latest with flow id {id:08x}); max_flow_id_retries is {}: a rejected requester makes at most that many attempts before failing with FlowIdRejected", NAMES[e], *c, self.opts[e].max_retries);
+                    if !self.fails.iter().any(|f| f.0 == "C07" && f.1 == "retry-bound") {
+                        self.fails.push(("C07".into(), "retry-bound".into(), msg));
+                    }
+                }
+            }
+        }
         // while the sink holds frames back, the wire lags behind the flow table: the in-use shadow
         // is not maintained then (nor on the stimulus that releases the held frames)
         let lagging = self.sink_blocked[e] || matches!(t[0], "sinkblock" | "sinkgrant" | "sinkunblock");
